@@ -194,7 +194,7 @@ func runC06(c *fw.Ctx) {
 						if len(apps) == 0 {
 							continue
 						}
-						n := apps[c.S.Draw(len(apps), "path")]
+						n := mut.PickNode(c.S, apps)
 						t2, res, ok := mut.Apply(c.S, mut.Clone(tree), n, op, bank)
 						if ok {
 							mm := *m
